@@ -74,17 +74,19 @@ type Result struct {
 }
 
 var (
-	reStates   = regexp.MustCompile(`^(\d+) states generated, (\d+) distinct states found`)
-	reDepth    = regexp.MustCompile(`^The depth of the complete state graph search is (\d+)`)
-	reInv      = regexp.MustCompile(`^Error: Invariant (\S+) is violated`)
-	reAct      = regexp.MustCompile(`^Error: Action property (\S+) is violated`)
-	reActLine  = regexp.MustCompile(`^Error: Action property line`)
-	reTemporal = regexp.MustCompile(`^Error: Temporal properties were violated`)
-	reDeadlock = regexp.MustCompile(`^Error: Deadlock reached`)
-	rePost     = regexp.MustCompile(`POSTCONDITION .* (is|evaluated to) (FALSE|false)|Error: The postcondition .* (violated|false)`)
-	reErr      = regexp.MustCompile(`^Error: (.*)`)
-	reCov      = regexp.MustCompile(`^<(\w+) line \d+, col \d+ to line \d+, col \d+ of module (\w+)>: (\d+):(\d+)`)
-	reProgress = regexp.MustCompile(`^Progress\(\d+\) at .*: ([\d,]+) states generated.*, ([\d,]+) distinct states found`)
+	reStates    = regexp.MustCompile(`^(\d+) states generated, (\d+) distinct states found`)
+	reDepth     = regexp.MustCompile(`^The depth of the complete state graph search is (\d+)`)
+	reInv       = regexp.MustCompile(`^Error: Invariant (\S+) is violated`)
+	reAct       = regexp.MustCompile(`^Error: Action property (\S+) is violated`)
+	reActLine   = regexp.MustCompile(`^Error: Action property line`)
+	reTemporal  = regexp.MustCompile(`^Error: Temporal properties were violated`)
+	reDeadlock  = regexp.MustCompile(`^Error: Deadlock reached`)
+	rePost      = regexp.MustCompile(`POSTCONDITION .* (is|evaluated to) (FALSE|false)|Error: The postcondition .* (violated|false)`)
+	reErr       = regexp.MustCompile(`^Error: (.*)`)
+	reCov       = regexp.MustCompile(`^<(\w+) line \d+, col \d+ to line \d+, col \d+ of module (\w+)>: (\d+):(\d+)`)
+	reSimStates = regexp.MustCompile(`^The number of states generated: (\d+)`)
+	reSimProg   = regexp.MustCompile(`^Progress: (\d+) states checked, (\d+) traces generated`)
+	reProgress  = regexp.MustCompile(`^Progress\(\d+\) at .*: ([\d,]+) states generated.*, ([\d,]+) distinct states found`)
 )
 
 // Run executes TLC. It never returns an error for a property violation; err is for
@@ -254,6 +256,10 @@ func (r *Result) handleLine(line []byte, o *Options, out *strings.Builder) {
 		m := reProgress.FindStringSubmatch(s)
 		r.Generated, _ = strconv.ParseInt(strings.ReplaceAll(m[1], ",", ""), 10, 64)
 		r.Distinct, _ = strconv.ParseInt(strings.ReplaceAll(m[2], ",", ""), 10, 64)
+	case reSimStates.MatchString(s):
+		r.Generated, _ = strconv.ParseInt(reSimStates.FindStringSubmatch(s)[1], 10, 64)
+	case reSimProg.MatchString(s):
+		r.Generated, _ = strconv.ParseInt(reSimProg.FindStringSubmatch(s)[1], 10, 64)
 	case reDepth.MatchString(s):
 		r.Depth, _ = strconv.Atoi(reDepth.FindStringSubmatch(s)[1])
 	case strings.HasPrefix(s, "Model checking completed") || strings.HasPrefix(s, "Finished in"):
